@@ -25,7 +25,7 @@ RULE = (
     "number of cuts, nested cuts present, query class)."
 )
 RULE += " " + (
-    "Also: zones of class CH/HS, owners in the non-native spelling and in varying letter case, transactions abandoned through an exception, versions held by open readers re-checked against the reference of their own content, delegation-heavy zones (380-640 cuts)."
+    "Also: zones of class CH/HS, owners in the non-native spelling and in varying letter case, transactions abandoned through an exception, versions held by open readers re-checked against the reference of their own content, delegation-heavy zones (380-640 cuts). Whole signature sets deleted at cuts."
 )
 ASSUMPTIONS = [
     "reference B6 (DESIGN.md Appendix B6): flags, delegation index and bounds as functions of content",
